@@ -3,11 +3,21 @@
   entry in `handlers`.
 -/
 import GitAiModel.Driver.NoteFormat
+import GitAiModel.Driver.DiffSplit
+import GitAiModel.Driver.Stats
+import GitAiModel.Driver.Tracker
+import GitAiModel.Driver.Cli
+import GitAiModel.Driver.Sync
 namespace GitAi.Driver
 open Lean
 
 def handlers : List (String → Json → Option (Except String Json)) := [
-  NoteFormatD.handle
+  NoteFormatD.handle,
+  DiffSplitD.handle,
+  StatsD.handle,
+  TrackerD.handle,
+  CliD.handle,
+  SyncD.handle
 ]
 
 end GitAi.Driver
